@@ -513,7 +513,29 @@ def _judge(p, cfg, devs, ex, info, dev, threads):
     if info.get('values') != exp_vals:
         txl = [(e[2], e[3]) for e in ev if e[1] == 'tx']
         retrans = any(a == b for a, b in zip(txl, txl[1:]))
-        viol('cache_differs_from_device:%s' % ('after_retransmission' if retrans else 'no_retransmission'), 'Param.values %r, device %r' % (info.get('values'), exp_vals))
+        # known finding: after a retransmission the device's last word was *dropped* (a value reply that matches no pending
+        # request is not applied) - recognised by the last value reply about the parameter carrying the device's value
+        # and no update callback following it.  A stale value applied last is something else.
+        dropped = False
+        got_vals = info.get('values') or {}
+        for pi_, v in enumerate(dev.params):
+            if got_vals.get(v.group, {}).get(v.name) == str(v.value):
+                continue
+            idb = struct.pack('<H', pi_)
+            last = None
+            for i_, e in enumerate(ev):
+                if e[1] == 'processed' and (e[2] & 3) in (1, 2) and bytes(e[3][:2]) == idb:
+                    last = i_
+            if last is not None:
+                body = bytes(ev[last][3][2:])
+                if (ev[last][2] & 3) == 1 and len(body) == struct.calcsize(v.fmt) + 1:
+                    body = body[1:]                    # read reply: status byte first
+                applied = any(e[1] == 'update' and e[2] == '%s.%s' % (v.group, v.name) for e in ev[last + 1:])
+                if body == v.pack() and not applied:
+                    dropped = True
+        viol('cache_differs_from_device:%s%s' % ('after_retransmission' if retrans else 'no_retransmission',
+                                                 ':last_answer_dropped' if dropped else ''),
+             'Param.values %r, device %r' % (info.get('values'), exp_vals))
     if info.get('wait_lock') or info.get('queue_len') or not all(info.get('users_done', [])):
         viol('not_quiescent', 'wait_lock held=%r, queued requests=%r, user threads done=%r' % (
             info.get('wait_lock'), info.get('queue_len'), info.get('users_done')))
